@@ -40,12 +40,12 @@ ASSUMPTIONS = ["migen tracer shim (names only)", "the bus master is a 32-bit Wis
 FLOORS = {"quick": {"registers_replayed": 600, "accessor_reads": 600, "accessor_writes": 300, "socs_built": 40, "mem_region_words_checked": 200,
                     "cross_format_entries_compared": 2000, "image_bytes_checked": 12000, "registers_wider_than_64_bits": 40, "interrupts_raised_and_located": 40,
                     "fields_located": 250, "field_accessor_writes_replayed": 120,
-                    "other_memories_checked_after_region_write": 400, "extra_ram_requests_inside_a_neighbours_window_refused": 6},
+                    "other_memories_checked_after_region_write": 400, "ram_image_words_read_back": 150, "extra_ram_requests_inside_a_neighbours_window_refused": 6},
           "thorough": {"registers_replayed": 9000, "accessor_reads": 9000, "accessor_writes": 4500, "socs_built": 600,
                        "mem_region_words_checked": 3000, "cross_format_entries_compared": 30000, "image_bytes_checked": 300000,
                        "registers_wider_than_64_bits": 600, "interrupts_raised_and_located": 500,
                        "fields_located": 4000, "field_accessor_writes_replayed": 2000,
-                       "other_memories_checked_after_region_write": 6000, "extra_ram_requests_inside_a_neighbours_window_refused": 90}}
+                       "other_memories_checked_after_region_write": 6000, "ram_image_words_read_back": 2500, "extra_ram_requests_inside_a_neighbours_window_refused": 90}}
 SHARD_TIMEOUT = {"quick": 1500, "thorough": 3400}
 N_SAMPLES = 2
 
@@ -155,6 +155,10 @@ def build_soc(case, rng, specs, init_files):
     # extra RAMs of sizes that are not powers of two, each requested right behind the previous one's declared end, i.e. inside the
     # previous one's decoded (power-of-two) window: LiteX has to refuse that request (the harness then asks for the next free
     # aligned place). A region accepted there answers together with its neighbour, which the memory-region replay sees.
+    soc.main_ram_image = False
+    if main_size and init_files.get("main_ram") and 4 * len(init_files["main_ram"]) <= main_size and rng.random() < 0.7:
+        soc.init_ram("main_ram", contents=init_files["main_ram"])
+        soc.main_ram_image = True
     soc.extra_rams = []
     soc.extra_ram_refusals = 0
     if rng.random() < 0.6:
@@ -319,7 +323,14 @@ def run_soc(case):
         rom_bytes = bytes(rng.getrandbits(8) for _ in range(rng.choice([16, 33, 64])))
         romfile = os.path.join(tmpdir, "rom.bin")
         open(romfile, "wb").write(rom_bytes)
-        soc, tb, objs = build_soc(case, rng, specs, {"rom": get_mem_data(romfile, data_width=case["bus_dw"], endianness="little")})
+        # the ROM image is handed over as a word list or as a file name (SoCCore then converts it itself); main_ram gets an image
+        # through SoC.init_ram
+        rom_init = romfile if rng.random() < 0.5 else get_mem_data(romfile, data_width=case["bus_dw"], endianness="little")
+        ram_bytes = bytes(rng.getrandbits(8) for _ in range(rng.choice([8, 20, 37, 64])))
+        ramfile = os.path.join(tmpdir, "ram.bin")
+        open(ramfile, "wb").write(ram_bytes)
+        soc, tb, objs = build_soc(case, rng, specs, {"rom": rom_init, "main_ram": get_mem_data(ramfile, data_width=case["bus_dw"],
+                                                                                               endianness="little")})
         st["socs"] = 1
         ex = export_all(soc, rng.random() < 0.5, tmpdir)
     finally:
@@ -402,6 +413,18 @@ def run_soc(case):
             sim_errs.append({"kind": "memory-region-not-published", "memory": name})
 
     def script():
+        # main_ram image loaded with SoC.init_ram: the byte a little-endian CPU reads at address a is byte a of the file
+        if getattr(soc, "main_ram_image", False) and "main_ram" in js["memories"]:
+            base = js["memories"]["main_ram"]["base"]
+            for a in range(0, len(ram_bytes) & ~3, 4):
+                res = yield ("read", (base + a) >> 2)
+                exp_ = int.from_bytes(ram_bytes[a:a + 4], "little")
+                st["memw"] += 1
+                st["ram_image_words"] = st.get("ram_image_words", 0) + 1
+                if res.get("hung") or res["dat_r"] != exp_:
+                    sim_errs.append({"kind": "ram-image-byte-at-wrong-address-or-lane", "address": a, "expected": hex(exp_),
+                                     "read": hex(res["dat_r"]) if res["dat_r"] is not None else None})
+                    break
         # registers
         for name, (r, o) in sorted(objs.items()):
             if r["kind"] in ("mem", "ev"):
@@ -704,6 +727,7 @@ def run_shard(shard):
         col.ev("registers_wider_than_64_bits", st.get("wide", 0))
         col.ev("fields_located", st.get("fields", 0))
         col.ev("other_memories_checked_after_region_write", st.get("mem_others", 0))
+        col.ev("ram_image_words_read_back", st.get("ram_image_words", 0))
         col.ev("extra_ram_requests_inside_a_neighbours_window_refused", r.get("xram_refusals", 0))
         col.ev("field_accessor_writes_replayed", st.get("field_writes", 0))
         col.ev("interrupts_raised_and_located", st.get("irqs", 0))
